@@ -155,7 +155,7 @@ def _scales(prop):
 def unit_fbf(prop):
     def unit(tier, known):
         from contracts import stft_stream as C
-        to_case, rm = (C.to_case_c04, "rtc.c04") if prop == "C04" else (C.to_case_stream, "rtc.c01")
+        to_case, rm = (C.to_case_c04, "rtc.c04") if prop == "C04" else (C.to_case_fbf, "rtc.c01")
         return run_contract(prop, ("compute", "frame_by_frame_calculation"), C.contract_fbf(), [("", C.setup_fbf)], name="frame_by_frame",
                             to_case=to_case, replay_module=rm)
     unit.__name__ = "frame_by_frame"
